@@ -36,8 +36,8 @@ RULE = (
     "line-level interleaving of write_wfs_chunk incl. the memmap store). Spike trains put spikes inside both margins, exactly on "
     "chunk boundaries, duplicated across units, with peak channels at both probe ends and unit sizes below/at/above max_wf. "
     "Oracle: every saved row equals the source window on the independently computed neighbourhood (NaN padded), files agree row by "
-    "row, per-unit counts, identical table/traces across (chunksize, workers, schedule), every row stored exactly once (memmap proxy "
-    "history), loader returns the saved rows. distinct_nontrivial counts distinct (chunk completion order, workers, chunk-size class) "
+    "row, per-unit counts, identical table/traces across (chunksize, workers, schedule), no two chunk tasks leaving different contents "
+    "in one memmap row (store history with contents), loader returns the saved rows. distinct_nontrivial counts distinct (chunk completion order, workers, chunk-size class) "
     "among runs with >= 2 workers and >= 2 non-empty chunks."
 )
 COMPONENTS = {
